@@ -121,6 +121,20 @@ def _construct_case(ctx, Icls, tree, form, value):
             ctx.violation(f"value-mismatch:{fmt}:{form}", {**wit, "got": got, "expected": item_value_expected(tree)})
     except Exception as exc:
         ctx.violation(f"value-raises:{fmt}:{form}:{type(exc).__name__}", {**wit, "error": repr(exc)[:200]})
+        return
+    # the item holds *that value*: what the caller does with his own list afterwards does not reach into the item
+    if isinstance(value, list) and value:
+        ctx.count("oracle.construct_then_caller_changes_his_list")
+        try:
+            value.append(value[0])
+            value[0] = value[-1] if value[-1] != value[0] else (not value[0] if isinstance(value[0], bool) else value[0])
+            del value[len(value) // 2:]
+            enc2 = item.encode()
+        except Exception as exc:
+            ctx.violation(f"item-aliases-the-callers-list:{fmt}:{form}:{type(exc).__name__}", {**wit, "error": repr(exc)[:200]})
+            return
+        if enc2 != ref:
+            ctx.violation(f"item-aliases-the-callers-list:{fmt}:{form}", {**wit, "encoded_after_the_list_was_changed": enc2[:80]})
 
 
 def _decode_case(ctx, I, tree, data, mech):
